@@ -71,7 +71,7 @@ MIN_EVENTS = {
               'server_packets_seen': 1000},
     'thorough': {'parser_chunks': 20000000, 'reader_packets': 30000000, 'areader_chunks': 20000000,
                  'usb_chunks': 15000000, 'oracle_evals': 150000000, 'agree_evals': 10000000,
-                 'exhaustive_chunkings': 1000000, 'huge_streams': 2000, 'truncated_streams': 100000,
+                 'exhaustive_chunkings': 400000, 'huge_streams': 2000, 'truncated_streams': 100000,
                  'invalid_injections': 150000, 'invalid_reported': 150000, 'invalid_reported_by_reader': 50000,
                  'usbsrc_packets': 100000,
                  'server_tcp_cuts': 1200, 'server_unix_cuts': 1200, 'server_ws_cuts': 1200,
